@@ -58,7 +58,12 @@ impl<F> Stream<F> {
 
     fn flush_changes(&mut self) -> io::Result<()> {
         if let Some(flusher) = self.flusher.take() {
-            flusher.flush_changes(self)?;
+            if let Err(err) = flusher.flush_changes(self) {
+                // The buffered data has not (all) been written; keep it
+                // marked as modified so that a later flush tries again.
+                self.flusher = Some(flusher);
+                return Err(err);
+            }
         }
         Ok(())
     }
